@@ -320,7 +320,11 @@ inline static void DigitGen(const DiyFp& W, const DiyFp& Mp, uint64_t delta, cha
     kappa--;
     if (p2 < delta) {
       *K += kappa;
-      GrisuRound(buffer, *len, delta, p2, one.f, wp_w.f * kPow10[-kappa]);
+      // kappa can go well below -9 here; any power of ten beyond the table
+      // would overflow 32 bits anyway, so treat it as 0 like the padding
+      // entries of the table.
+      const int index = -kappa;
+      GrisuRound(buffer, *len, delta, p2, one.f, wp_w.f * (index < 16 ? kPow10[index] : 0));
       return;
     }
   }
